@@ -6,7 +6,8 @@ import RawPanelVerif.Spec.TextSpec
 
 * `text.case` — one string on three fresh images (fixed setter order).
 * `text.sess` — a whole call history on ONE image object in one record (the driver keeps no state between `text.*`
-  lines): setters in any order, metric queries, earlier texts, re-creation of the canvas, followed by a final case whose
+  lines): setters in any order, metric queries (also the SAME queries before and after one setter call: the model answers
+  each from the state at that moment), earlier texts, re-creation of the canvas, followed by a final case whose
   three renderings `A`, `B`, `C` come from three objects with that same history.  The model (`Model/Mono.lean` text state)
   answers every query from the current state; the Spec clauses are evaluated on the final case. -/
 namespace RawPanelVerif.Driver.Text
@@ -82,6 +83,8 @@ def parseCall (tok : String) : Option TextCall :=
   | ["W", b] => do pure (.wrap (← parseBool b))
   | ["C", x, y] => do pure (.cursor (← parseInt x) (← parseInt y))
   | ["K", b] => do pure (.color (← parseBool b))
+  | ["X", x, y, w, h] => do pure (.bbox (← parseInt x) (← parseInt y) (← parseInt w) (← parseInt h))
+  | ["I", b] => do pure (.inv (← parseBool b))
   | ["N", w, h] => do pure (.newImage (← w.toNat?) (← h.toNat?))
   | ["B", w, h, bits] => do pure (.fromBytes (← w.toNat?) (← h.toNat?) (bytesBV (← unhex bits)))
   | ["S", str] => do pure (.strWidth (← goStr str))
